@@ -327,6 +327,12 @@ func virtualInline(p *Prog) int {
 				return nil
 			}
 			scope = x.Cond
+		case *ast.SwitchStmt:
+			// switch helper(…) {…} (no init statement): the tag is evaluated once, before the clauses
+			if x.Init != nil || x.Tag == nil {
+				return nil
+			}
+			scope = x.Tag
 		default:
 			return nil
 		}
@@ -337,6 +343,9 @@ func virtualInline(p *Prog) int {
 			}
 			if is, isIf := s.(*ast.IfStmt); isIf {
 				scope = is.Cond
+			}
+			if ss, isSw := s.(*ast.SwitchStmt); isSw {
+				scope = ss.Tag
 			}
 			ast.Inspect(scope, func(n ast.Node) bool {
 				if target != nil {
@@ -400,6 +409,13 @@ func virtualInline(p *Prog) int {
 					replaced = true
 				} else {
 					replaced = replaceExpr(&ast.ExprStmt{X: is.Cond}, target, use)
+				}
+			} else if ss, isSw := s.(*ast.SwitchStmt); isSw {
+				if ast.Unparen(ss.Tag) == ast.Expr(target) {
+					ss.Tag = use
+					replaced = true
+				} else {
+					replaced = replaceExpr(&ast.ExprStmt{X: ss.Tag}, target, use)
 				}
 			} else {
 				replaced = replaceExpr(s, target, use)
@@ -477,7 +493,14 @@ func virtualInline(p *Prog) int {
 			case *ast.BlockStmt:
 				return false
 			case *ast.FuncLit:
+				// (a helper called as the literal's last statement may contain defers: they run when the literal returns)
+				saved := curTail
+				curTail = nil
+				if len(y.Body.List) > 0 {
+					curTail = y.Body.List[len(y.Body.List)-1]
+				}
 				y.Body.List = rewriteList(info, pkg, y.Body.List, depth)
+				curTail = saved
 				return false
 			}
 			return true
@@ -488,6 +511,7 @@ func virtualInline(p *Prog) int {
 			return
 		}
 		state[fd] = 1
+		n += expandPredicates(p, info, fd)
 		saved := callCount
 		callCount = map[*types.Func]int{}
 		ast.Inspect(fd.Body, func(n ast.Node) bool {
